@@ -49,8 +49,62 @@ fn ack(file: &Path, v: Value) {
 static INJECT_ARMED: std::sync::atomic::AtomicBool = std::sync::atomic::AtomicBool::new(false);
 static INJECT_CTX: std::sync::OnceLock<(Arc<ripd::SessionEngine>, Arc<tokio::runtime::Runtime>)> = std::sync::OnceLock::new();
 
+/// `<op>+msgpark` (for ops that create a NEW thread without the seq lock: branch, handoff): when the
+/// op is about to create the new thread's `.dirty` marker, a second OS thread appends a message
+/// to the MAIN thread (takes the seq lock, logs the frame, creates that family's marker) and then
+/// stops in the middle of its cache update for 300 ms - so for every following file-system call of
+/// the op two cache families are mid-update at once, which is what a crash then finds.
+static PARK_ARMED: std::sync::atomic::AtomicBool = std::sync::atomic::AtomicBool::new(false);
+static PARK_MAIN_THREAD: std::sync::OnceLock<String> = std::sync::OnceLock::new();
+static PARKED: std::sync::atomic::AtomicBool = std::sync::atomic::AtomicBool::new(false);
+thread_local! {
+    /// on the injected thread: number of its file-system calls seen since its own marker was created
+    static INJECTED_AFTER_MARKER: std::cell::Cell<Option<u32>> = const { std::cell::Cell::new(None) };
+    static IS_INJECTED: std::cell::Cell<bool> = const { std::cell::Cell::new(false) };
+}
+
+fn park_callback(p: &str) {
+    if IS_INJECTED.with(|c| c.get()) {
+        // the injected appender: let it create its marker, stop before its next effect
+        let after = INJECTED_AFTER_MARKER.with(|c| c.get());
+        if after.is_none() && p.ends_with(".dirty") {
+            INJECTED_AFTER_MARKER.with(|c| c.set(Some(0)));
+        } else if after == Some(0) {
+            INJECTED_AFTER_MARKER.with(|c| c.set(Some(1)));
+            PARKED.store(true, std::sync::atomic::Ordering::SeqCst);
+            std::thread::sleep(std::time::Duration::from_millis(300));
+        }
+        return;
+    }
+    let main = PARK_MAIN_THREAD.get().map(|s| s.as_str()).unwrap_or("");
+    if !p.ends_with(".dirty") || p.contains(main) || !PARK_ARMED.swap(false, std::sync::atomic::Ordering::SeqCst) {
+        return;
+    }
+    if let Some((engine, _rt)) = INJECT_CTX.get() {
+        let store = engine.continuities();
+        let main = main.to_string();
+        std::thread::spawn(move || {
+            IS_INJECTED.with(|c| c.set(true));
+            let _ = store.append_message(&main, "u".into(), "o".into(), "concurrent append".into());
+        });
+        // wait until the appender stands in the middle of its cache update (or 3 s)
+        let t0 = std::time::Instant::now();
+        while !PARKED.load(std::sync::atomic::Ordering::SeqCst) && t0.elapsed() < std::time::Duration::from_secs(3) {
+            std::thread::sleep(std::time::Duration::from_millis(1));
+        }
+    }
+}
+
 extern "C" fn inject_callback(_op: *const std::os::raw::c_char, path: *const std::os::raw::c_char) {
-    if path.is_null() || !INJECT_ARMED.load(std::sync::atomic::Ordering::SeqCst) {
+    if path.is_null() {
+        return;
+    }
+    if PARK_ARMED.load(std::sync::atomic::Ordering::SeqCst) || IS_INJECTED.with(|c| c.get()) {
+        let p = unsafe { std::ffi::CStr::from_ptr(path) }.to_string_lossy();
+        park_callback(&p);
+        return;
+    }
+    if !INJECT_ARMED.load(std::sync::atomic::Ordering::SeqCst) {
         return;
     }
     let p = unsafe { std::ffi::CStr::from_ptr(path) }.to_string_lossy();
@@ -93,7 +147,7 @@ pub fn worker(args: &[String]) -> i32 {
         Arc::new(ripd::SessionEngine::new(data.clone(), root.clone(), None).expect("engine"))
     };
     let mut store = engine.continuities();
-    if ops.iter().any(|o| o.ends_with("+sess")) {
+    if ops.iter().any(|o| o.ends_with("+sess") || o.ends_with("+msgpark")) {
         let _ = INJECT_CTX.set((engine.clone(), rt.clone()));
         install_inject_callback();
     }
@@ -122,12 +176,18 @@ pub fn worker(args: &[String]) -> i32 {
             ack(&ack_file, json!({"i": i, "ok": true, "ids": [], "tokens": []}));
             continue;
         }
-        let op = match op.strip_suffix("+sess") {
-            Some(base) => {
+        let op = match (op.strip_suffix("+sess"), op.strip_suffix("+msgpark")) {
+            (Some(base), _) => {
                 INJECT_ARMED.store(true, std::sync::atomic::Ordering::SeqCst);
                 base.to_string()
             }
-            None => op.clone(),
+            (_, Some(base)) => {
+                let _ = PARK_MAIN_THREAD.set(thread.clone());
+                PARKED.store(false, std::sync::atomic::Ordering::SeqCst);
+                PARK_ARMED.store(true, std::sync::atomic::Ordering::SeqCst);
+                base.to_string()
+            }
+            _ => op.clone(),
         };
         let res: Result<(), String> = (|| {
             match op.as_str() {
@@ -222,6 +282,11 @@ pub fn worker(args: &[String]) -> i32 {
             }
             Ok(())
         })();
+        if PARK_ARMED.swap(false, std::sync::atomic::Ordering::SeqCst) && res.is_ok() {
+            ack(&ack_file, json!({"i": i, "ok": false, "err": "park injection point not reached"}));
+            eprintln!("c05 worker: injection point not reached in {op}+msgpark");
+            return 3;
+        }
         if INJECT_ARMED.swap(false, std::sync::atomic::Ordering::SeqCst) && res.is_ok() {
             // the op never reached a cache effect: the history does not exercise what it claims to
             ack(&ack_file, json!({"i": i, "ok": false, "err": "injection point not reached"}));
@@ -229,6 +294,10 @@ pub fn worker(args: &[String]) -> i32 {
             return 3;
         }
         ack(&ack_file, json!({"i": i, "ok": res.is_ok(), "err": res.err(), "ids": ids, "tokens": tokens}));
+    }
+    if PARKED.load(std::sync::atomic::Ordering::SeqCst) {
+        // the no-crash pass: let the concurrent appender finish its (counted) calls
+        std::thread::sleep(std::time::Duration::from_millis(500));
     }
     0
 }
@@ -394,8 +463,15 @@ fn recover_and_check_inner(store_dir: &Path, acks: &[Value], soft: &mut Vec<(Str
             return Err(("append_after_crash".into(), format!("append after restart fails on {t}: {e}")));
         }
     }
-    if let Err(e) = store.ensure_default() {
-        return Err(("ensure_default_after_crash".into(), format!("ensure_default after restart fails: {e}")));
+    match store.ensure_default() {
+        Err(e) => return Err(("ensure_default_after_crash".into(), format!("ensure_default after restart fails: {e}"))),
+        Ok(default) => {
+            // the thread the restarted authority resolves as the default one is USABLE: it may be a
+            // thread the index knows and the log does not (the crash fell between the two)
+            if let Err(e) = store.append_message(&default, "u".into(), "o".into(), "to the default thread".into()) {
+                return Err(("default_thread_unusable_after_crash".into(), format!("ensure_default after restart answers {default}, and an append to it fails: {e}")));
+            }
+        }
     }
     drop(store);
     // (7) the same differential once more, after the restarted authority has appended: an append
@@ -604,6 +680,12 @@ pub fn run(opts: Opts) -> i32 {
         vec!["run", "ckpt", "msg9k", "branch", "reopen", "side"],
     ] {
         hs.push(h);
+    }
+    // two cache families mid-update at once: a lock-free thread creation (branch / handoff) with an
+    // append to the main thread stopped in the middle of its cache update
+    for op in ["branch+msgpark", "handoff+msgpark"] {
+        hs.push(vec!["msg", op]);
+        hs.push(vec!["run", "ckpt", op]);
     }
     report.set_extra("histories", json!(hs.len()));
     report.sample(json!({"ops": ["msg9k", "ckpt"], "crash": "before every mutating call k"}));
